@@ -40,8 +40,91 @@ func TestMain(m *testing.M) {
 
 // outcome is what an operation returned, in a canonical form.
 type outcome struct {
-	vals [][]byte // the outputs (signature, ciphertext, key ...), compared between runs and parsed by verify
-	leak string   // name of a returned value that was not nil / zero ("" = everything was)
+	vals   [][]byte // the outputs (signature, ciphertext, key ...), compared between runs and parsed by verify
+	leak   string   // name of a returned value that was not nil / zero ("" = everything was)
+	argErr error    // the operation changed one of its slice arguments or wrote into its spare capacity
+}
+
+// ---------------------------------------------------------------- slice arguments
+
+// args hands the slice arguments of one call to the library. With flagArgs
+// every argument is a private copy whose spare capacity holds a sentinel
+// (zero-length arguments rotate through nil, []byte{} and buf[:0]); after the
+// call the argument and the sentinel must be as they were, and everything is
+// then overwritten with garbage, so that a reference the library kept shows in
+// the later outputs of the same key object (histories).
+type args struct {
+	on   bool
+	seed uint64
+	list []*argBuf
+}
+
+type argBuf struct{ b, full, want []byte }
+
+const argSentinel = 0xc3
+
+func newArgs(c *opCase) *args { return &args{on: c.Flags&flagArgs != 0, seed: c.Seed} }
+
+func (a *args) in(content []byte) []byte {
+	if !a.on {
+		return append([]byte{}, content...)
+	}
+	ab := &argBuf{want: append([]byte{}, content...)}
+	if len(content) == 0 {
+		switch (a.seed + uint64(len(a.list))) % 3 {
+		case 0:
+			ab.b = nil
+		case 1:
+			ab.b = []byte{}
+		default:
+			ab.full = bytes.Repeat([]byte{argSentinel}, 9)
+			ab.b = ab.full[:0]
+		}
+	} else {
+		ab.full = bytes.Repeat([]byte{argSentinel}, len(content)+1+len(content)%13)
+		copy(ab.full, content)
+		ab.b = ab.full[:len(content)]
+	}
+	a.list = append(a.list, ab)
+	return ab.b
+}
+
+func (a *args) finish() error {
+	var err error
+	for i, ab := range a.list {
+		if !bytes.Equal(ab.b, ab.want) && err == nil {
+			err = fmt.Errorf("slice argument %d was modified by the call: %x -> %x", i, ab.want, ab.b)
+		}
+		for j := len(ab.want); j < len(ab.full); j++ {
+			if ab.full[j] != argSentinel && err == nil {
+				err = fmt.Errorf("the call wrote into the spare capacity of slice argument %d (offset +%d)", i, j-len(ab.want))
+			}
+		}
+		for j := range ab.full {
+			ab.full[j] = 0x5c ^ byte(j)
+		}
+	}
+	return err
+}
+
+// ---------------------------------------------------------------- key objects of a history
+
+// Inside a history (checkHistory) every key object - SM2 / P-256 private
+// keys, SM9 master and user keys, KeyExchange objects - is created once and
+// used by all steps; outside, each run builds its own (SM9 keys are shared by
+// the whole process).
+var scope map[string]any
+
+func scoped[T any](key string, mk func() T) T {
+	if scope == nil {
+		return mk()
+	}
+	if v, ok := scope[key]; ok {
+		return v.(T)
+	}
+	v := mk()
+	scope[key] = v
+	return v
 }
 
 // expect is what the sampling rule says about a stream.
@@ -95,7 +178,7 @@ type runResult struct {
 }
 
 func safeRun(o *opImpl, c *opCase, stream []byte, failAt, mode int) (res runResult) {
-	rd := newScript(stream, c.Chunk, failAt, mode)
+	rd := newScript(stream, c.Chunk, failAt, mode, c.Flags)
 	defer func() {
 		if p := recover(); p != nil {
 			if e, ok := p.(error); ok && errors.Is(e, errKeptReading) {
@@ -156,7 +239,7 @@ func describe(o *opImpl, c *opCase, stream []byte) string {
 	for _, b := range c.Blocks {
 		kinds = append(kinds, classify(b, o.n))
 	}
-	return fmt.Sprintf("op=%s var=%d key=%d msglen=%d force=%d chunk=%d candidates=%v stream=%s", c.Op, c.Var, c.Key, c.MsgLen, c.Force, c.Chunk, kinds, h.Hex(stream))
+	return fmt.Sprintf("op=%s var=%d key=%d msglen=%d force=%d chunk=%d flags=%d candidates=%v stream=%s", c.Op, c.Var, c.Key, c.MsgLen, c.Force, c.Chunk, c.Flags, kinds, h.Hex(stream))
 }
 
 func checkFidelity(o *opImpl, c *opCase, stream []byte, r *h.Rec) error {
@@ -194,6 +277,7 @@ func checkFidelity(o *opImpl, c *opCase, stream []byte, r *h.Rec) error {
 	if c.Chunk > 0 {
 		r.Label(o.name + "/chunked-source")
 	}
+	labelFlags(o, c, r)
 	r.NTIf(firstRejected || exp.retry != "")
 
 	res := safeRun(o, c, stream, -1, faultNone)
@@ -203,6 +287,9 @@ func checkFidelity(o *opImpl, c *opCase, stream []byte, r *h.Rec) error {
 	if res.err != nil {
 		return fmt.Errorf("%s failed on a fault-free stream that holds an acceptable scalar (%s): %v\n%s", o.name, ref.Hex32(exp.k), res.err, describe(o, c, stream))
 	}
+	if res.out.argErr != nil {
+		return fmt.Errorf("%s: %v\n%s", o.name, res.out.argErr, describe(o, c, stream))
+	}
 	if err := o.verify(c, exp, res.out); err != nil {
 		return fmt.Errorf("%s: %v\n  the sampling rule (first 32-byte block in [1, %s], %d refused before it%s) gives %s\n%s",
 			o.name, err, map[bool]string{true: "n-1", false: "n-2"}[o.hi.Cmp(sub1(o.n)) == 0], smp.rejected, retryNote(exp), ref.Hex32(exp.k), describe(o, c, stream))
@@ -211,13 +298,25 @@ func checkFidelity(o *opImpl, c *opCase, stream []byte, r *h.Rec) error {
 		return fmt.Errorf("%s consumed %d bytes of the random stream; the sampling rule needs exactly %d (reads %v, %d blocks refused%s); requests seen: %v\n%s",
 			o.name, res.consumed, smp.off, smp.reads, smp.rejected, retryNote(exp), res.reqs, describe(o, c, stream))
 	}
-	if c.Chunk == 0 && !equalInts(res.reqs, smp.reads) {
+	if c.Chunk == 0 && c.Flags&flagStutter == 0 && !equalInts(res.reqs, smp.reads) {
 		return fmt.Errorf("%s asked the random source for %v; the sampling rule reads %v\n%s", o.name, res.reqs, smp.reads, describe(o, c, stream))
 	}
 	if res.coins > 8 {
 		return fmt.Errorf("%s made %d one-byte reads", o.name, res.coins)
 	}
 	return nil
+}
+
+func labelFlags(o *opImpl, c *opCase, r *h.Rec) {
+	if c.Flags&flagScratch != 0 {
+		r.Label(o.name + "/source-scribbles-unfilled-buffer")
+	}
+	if c.Flags&flagStutter != 0 {
+		r.Label(o.name + "/source-zero-length-reads")
+	}
+	if c.Flags&flagArgs != 0 {
+		r.Label(o.name + "/args-sentinel-and-scribbled")
+	}
 }
 
 func retryNote(e *expect) string {
@@ -254,7 +353,11 @@ func checkFault(o *opImpl, c *opCase, stream []byte, r *h.Rec) error {
 	if c.Chunk > 0 {
 		r.Label(o.name + "/fault/chunked-source")
 	}
+	labelFlags(o, c, r)
 	res := safeRun(o, c, stream, c.At, c.Fault)
+	if res.out.argErr != nil {
+		return fmt.Errorf("%s: %v\n%s", o.name, res.out.argErr, describe(o, c, stream))
+	}
 	where := fmt.Sprintf("random source fails at byte %d (%s); the fault-free run consumes %d bytes", c.At, faultNames[c.Fault], need)
 	if c.At >= need {
 		// every byte the operation needs exists: nothing may change
@@ -330,6 +433,7 @@ func genFidelity(names ...string) func(*rapid.T) opCase {
 		}
 		c.Blocks = drawBlocks(t, o.n)
 		c.Chunk = drawChunk(t)
+		c.Flags = rapid.SampledFrom([]int{0, 0, 0, 0, 1, 2, 3, 4, 5, 6, 7, 7}).Draw(t, "flags")
 		switch rapid.IntRange(0, 5).Draw(t, "retryKind") {
 		case 0:
 			if len(o.force) > 0 {
@@ -385,6 +489,8 @@ func scenarios(o *opImpl) []opCase {
 		mk(1, 0, kN, kRandLess),
 		mk(2, 7, kZero, top, kNm2),
 	}
+	out[1].Flags = flagScratch | flagStutter | flagArgs
+	out[2].Flags = flagScratch
 	i := 3
 	for _, f := range o.force {
 		c := mk(i, 0, kRandLess, kMax, kRandLess)
@@ -446,9 +552,87 @@ func sweepFaults(t *testing.T, names ...string) {
 	}
 }
 
+// ---------------------------------------------------------------- histories on one key object
+
+// histCase is a sequence of operations of one kind on the same key objects
+// (private key, master / user key, KeyExchange object), each with its own
+// scripted stream; some steps fail (the source breaks inside the first
+// candidate block). Every step is held to the oracle of a single case: an
+// operation after a successful or a failed one must behave as on a fresh
+// object, and (flagArgs) must not depend on argument slices of earlier calls.
+type histCase struct {
+	Op    string   `json:"op"`
+	Var   int      `json:"var"`
+	Key   int      `json:"key"`
+	Steps []opCase `json:"steps"` // Op / Var / Key of the steps are those of the history
+}
+
+func genHistory(names ...string) func(*rapid.T) histCase {
+	fid := genFidelity(names...)
+	return func(t *rapid.T) histCase {
+		first := fid(t)
+		o := ops[first.Op]
+		hc := histCase{Op: first.Op, Var: first.Var, Key: first.Key}
+		// F = a failing step, S = a fault-free one; every pattern ends with an S
+		pat := rapid.SampledFrom([]string{"FS", "SFS", "SS", "FFS", "SFFS", "SSFS"}).Draw(t, "pattern")
+		for i, k := range pat {
+			c := first
+			if i > 0 {
+				c = fid(t)
+				c.Op, c.Var, c.Key = hc.Op, hc.Var, hc.Key
+			}
+			if k == 'F' {
+				c.Fault = rapid.IntRange(1, numFaultModes).Draw(t, "fault")
+				c.At = rapid.IntRange(0, o.pre+31).Draw(t, "at")
+			}
+			hc.Steps = append(hc.Steps, c)
+		}
+		return hc
+	}
+}
+
+func checkHistory(hc histCase, r *h.Rec) error {
+	o := ops[hc.Op]
+	if o == nil {
+		return fmt.Errorf("harness: unknown operation %q", hc.Op)
+	}
+	scope = map[string]any{}
+	defer func() { scope = nil }()
+	r.Label(o.name)
+	r.Label(o.name + "/history")
+	r.Label("%s/history/steps=%d", o.name, len(hc.Steps))
+	failedBefore, trail := false, ""
+	for i, c := range hc.Steps {
+		c.Op, c.Var, c.Key = hc.Op, hc.Var, hc.Key
+		if c.Fault == faultNone {
+			switch {
+			case failedBefore:
+				r.Label(o.name + "/history/op-after-failed-op")
+				r.NT()
+			case i > 0:
+				r.Label(o.name + "/history/op-after-successful-op")
+			}
+			if c.Flags&flagArgs != 0 && i+1 < len(hc.Steps) {
+				r.Label(o.name + "/history/args-scribbled-before-later-op")
+			}
+		}
+		if err := checkCase(c, &h.Rec{}); err != nil {
+			return fmt.Errorf("step %d of a history on one key object (steps so far: %s): %v", i, trail, err)
+		}
+		if c.Fault == faultNone {
+			trail += "S"
+		} else {
+			trail += "F"
+			failedBefore = true
+		}
+	}
+	return nil
+}
+
 func runFamily(t *testing.T, family string, quick, thorough int, names ...string) {
 	sort.Strings(names)
 	h.Prop(t, h.P{Name: family + "-fidelity", Quick: quick, Thorough: thorough}, genFidelity(names...), checkCase)
 	sweepFaults(t, names...)
 	h.Prop(t, h.P{Name: family + "-fault-random", Quick: quick / 2, Thorough: thorough / 2}, genFault(names...), checkCase)
+	h.Prop(t, h.P{Name: family + "-history", Quick: quick / 8, Thorough: thorough / 6}, genHistory(names...), checkHistory)
 }
